@@ -535,6 +535,15 @@ class Interp:
         if isinstance(v, (Inst, Func, Bound, Kernel, Class)):
             return True
         if isinstance(v, PW) and v.is_leaf() and v.leaf.is_poly():
+            fz = self.free_symbol_of(v)
+            if fz is not None:
+                # truthiness of a free scalar input (`if not shift:`): false exactly when the input is 0, so the false outcome
+                # substitutes 0 for it; both outcomes are analysed
+                from .regions import CURRENT_CASE, NeedDecision
+                d = CURRENT_CASE[0].decision(fz)
+                if d is None:
+                    raise NeedDecision(fz, "truth value of %s at %s" % (fz, self.where(st, ms)))
+                return d
             # truthiness of a whole-array reduction symbol (np.max(x) / x.min() ...) of an array with >= 2 elements: both
             # outcomes are feasible and neither pins an element, so both are analysed as separate cases
             from .poly import as_poly
@@ -560,6 +569,25 @@ class Interp:
         raise Unsupported("undecidable branch condition %r at %s" % (v, self.where(st, ms)))
 
     # assumptions on symbols: every symbol is positive unless listed
+    def free_symbol_of(self, v):
+        """name of the symbol if v is exactly one free scalar input symbol (not a size, index, reduction or structural quantity)"""
+        from .extlib import ExtLib
+        from .poly import as_poly
+        if not (isinstance(v, PW) and v.is_leaf() and v.leaf.is_poly()):
+            return None
+        p = as_poly(v.leaf)
+        if len(p.t) != 1:
+            return None
+        (m, c), = p.t.items()
+        if c != 1 or len(m) != 1 or m[0][1] != 1 or m[0][0][0] != "s":
+            return None
+        name = m[0][0][1]
+        structural = {"dx", "x_range", "eps", "pi", "nx", "ny", "nz", "h", "blend_width"}
+        if name in structural or name in ExtLib.INT_SYMBOLS or name.startswith("@") or name in getattr(self.ext, "reductions", {}) \
+                or "[" in name or "(" in name:
+            return None
+        return name
+
     def decide_cond(self, c):
         from .signs import sign_of_poly
         s = sign_of_poly(c.p)
@@ -1083,7 +1111,20 @@ class Interp:
         if name in ("Eq", "NotEq"):
             if isinstance(a, Arr) or isinstance(b, Arr):
                 return self.ext.elementwise(name, [a, b], e, ms)
-            r = self.py_equal(a, b)
+            r = None
+            for x, y in ((a, b), (b, a)):
+                # a free scalar input compared with 0: both outcomes are possible (the positivity convention of the algebra
+                # does not apply to inputs); the equal outcome substitutes 0 for it
+                fz = self.free_symbol_of(to_pw(x)) if is_scalar(x) and not isinstance(x, bool) and not is_num(simplify_scalar(x)) else None
+                if fz is not None and is_num(simplify_scalar(y)) and not isinstance(y, bool) and simplify_scalar(y) == 0:
+                    from .regions import CURRENT_CASE, NeedDecision
+                    d = CURRENT_CASE[0].decision(fz)        # True = non-zero
+                    if d is None:
+                        raise NeedDecision(fz, "%s == 0 at %s" % (fz, self.where(e, ms)))
+                    r = not d
+                    break
+            if r is None:
+                r = self.py_equal(a, b)
             if r is None:
                 raise Unsupported("undecidable equality %r == %r at %s" % (a, b, self.where(e, ms)))
             return r if name == "Eq" else not r
